@@ -1,9 +1,7 @@
 import UtilModel.Core.LTS
-import UtilModel.Core.Monitor
-import UtilModel.Core.Driver
 import UtilModel.Core.Count
 /-!
-# memo.MemoizeFunc — model (memo/memo.go) and the monitor of C16's second sentence
+# memo.MemoizeFunc — model (memo/memo.go)
 
 One thread = one call of the memoized closure. Atomic actions: `started.Swap(true)` (`swap`), entry /
 return of the wrapped function (`cbin` / `cbout`, observable, only on the thread that won the swap;
@@ -133,35 +131,5 @@ def Obs.parse : List String → Option Obs
   | ["cbout", v, e] => do pure (.cbout (← v.toNat?) (← e.toNat?))
   | "quiesce" :: ts => do pure (.quiesce (← parseNats ts))
   | _ => none
-
-/-! ## C16 (memo): the function is called exactly once in total and every caller receives that
-call's result -/
-
-structure MSt where
-  ncalls : Nat := 0
-  retd : List Nat := []                 -- calls that returned
-  entered : Bool := false               -- the function has been entered
-  out : Option (Nat × Nat) := none      -- what the function returned
-deriving Repr
-
-def monC16memo : ObsMonitor Obs MSt where
-  init := {}
-  step := fun ms o =>
-    match o with
-    | .inv t => if t = ms.ncalls then some { ms with ncalls := t + 1 } else none
-    | .cbin =>
-      -- entered at most once, while some call is pending
-      if ms.entered = false ∧ ms.retd.length < ms.ncalls then some { ms with entered := true } else none
-    | .cbout v e =>
-      if ms.entered = true ∧ ms.out = none then some { ms with out := some (v, e) } else none
-    | .ret t v e =>
-      -- every caller (the runner included) returns the result of that one call
-      if t < ms.ncalls ∧ t ∉ ms.retd ∧ ms.out = some (v, e) then some { ms with retd := t :: ms.retd } else none
-    | .panic _ => none
-    | .quiesce B =>
-      -- callers block only while the function is running
-      if B.isEmpty ∨ (ms.entered = true ∧ ms.out = none) then some ms else none
-
-def memoMons : List (MonEntry Obs) := [MonEntry.ofMonitor "C16" monC16memo]
 
 end UtilModel.Memo
